@@ -86,6 +86,13 @@ def gen_case(run_seed, tier):
         # a depolarizing noise model on emitter Hadamards: scores are then computed with noise switched on
         "noise": kind == "hyb" and sz.random() < 0.3,
     }
+    if case["noise"]:
+        # a depolarizing model turns every compile into a growing mixture: keep these runs small and the setting forced
+        case["det"] = 0 if case["det"] == 0 else 1
+        case["n_pop"] = min(case["n_pop"], 4)
+        case["n_stop"] = min(case["n_stop"], 4)
+        if case["n"] > 3:
+            case["noise"] = False
     return case
 
 
